@@ -8,6 +8,6 @@ rsync -a --exclude .git /repo/ $d/
 (cd $d && patch -p1 -s < "$b" >/dev/null 2>&1) || { rm -rf $d; exit 0; }
 (cd $d && patch -p1 -s --no-backup-if-mismatch -F0 < "$sd/patch.diff" >/dev/null 2>&1) || { rm -rf $d; echo "SKIP $(basename $(dirname $b))/$(basename $b .diff) + $id (does not apply)"; exit 0; }
 (cd $d && go build ./... >/dev/null 2>&1) || { rm -rf $d; echo "SKIP $(basename $(dirname $b))/$(basename $b .diff) + $id (does not build)"; exit 0; }
-n=$(/verif/bin/pslint -prop $prop -root $d -no-evidence 2>&1 | grep -c '^FAIL')
+n=$(${PSLINT:-/verif/bin/pslint} -prop $prop -root $d -no-evidence 2>&1 | grep -c '^FAIL')
 echo "CROSS $(basename $(dirname $b))/$(basename $b .diff) + $id fails=$n"
 rm -rf $d
